@@ -112,7 +112,11 @@ class FunctionParser(BaseParser):
             f = f.__func__
         if not f:
             return None
-        return getattr(f, "__annotations__", {}).get("return")
+        annotation = getattr(f, "__annotations__", {}).get("return")
+        if annotation is None and "return" in getattr(f, "__annotations__", {}):
+            # `-> None` declares the result (as `x: None` declares a parameter), it is not the absence of a declaration
+            return type(None)
+        return annotation
 
     @classmethod
     def infer_instancemethod(cls, func):
